@@ -27,6 +27,8 @@ TECHNIQUE += '; frame-keeping table per construct and exit by frame signatures (
 LEVEL_TEXT += ' Added clauses: a lookahead discards its frame on every exit, optional/choice/group merge on success and undo on failure, a skip group keeps the position only; `!e` fails iff e matches and lets foreign exceptions through; every leaf matcher returns and appends exactly what the cursor matched and raises through the failure factory otherwise.'
 TECHNIQUE += '; contracts of call/rule_call/repeat/gather/join/left-right join/naming context managers/skip_to interpreted with scripted callees (R9), values and bindings of the pass-through and naming model classes (R10), merge splices and define keeps bound names (R5), AST._define (R2)'
 LEVEL_TEXT += ' Added clauses: call() moves the caller to the end of the rule result and appends its node once; rule_call() opens its frame with new(), builds and memoizes RuleResult(action value, position after the body) and undoes the frame; separators are kept/dropped as documented; group/optional/choice return the value that matched, a choice whose options all fail raises; name:e / name+:e / @:e / @+:e store under the right key as single value or list.'
+TECHNIQUE += '; optimizer equivalence: optimized() of every expression class interpreted on all terms of depth <= 2 and compared with its input modulo four rewrites that are valid in PEG (C01.R11)'
+LEVEL_TEXT += ' Added clause: the optimisation pass every parse runs on accepts, consumes and skips exactly like the grammar that was written.'
 LEVEL_NOTE = ('Trusted: contextlib.contextmanager throws the body exception at the yield; unresolved calls may raise '
               'anything; the documented CST table (DESIGN appendix A) is the oracle, written from docs/ast.rst and '
               'docs/syntax.rst.')
